@@ -238,4 +238,12 @@ def cases(tier, seed=0):
                     if kind == "nncontrol" and Rc > 1:
                         continue
                     out.append(cond_case(kind, what, 2, 2, Rc, Rx, semi=("Sx", "Sy"), timeout=1800))
+    for kind in ("diag", "identity", "identitydiag", "nncontrol"):
+        dd = (2, 2) if kind.startswith("identity") else (2, 1)
+        for var in (("viaL",), ("upd",)):
+            if kind == "nncontrol" and var == ("viaL",):
+                continue
+            for what in ("set_y", "joint", "conditional", "info", "logcond"):
+                sm = var + (("Sx",) if dd == (2, 2) and what in ("conditional", "info", "logcond") else ())
+                out.append(cond_case(kind, what, dd[0], dd[1], 1, 1, semi=sm))
     return out
